@@ -116,17 +116,53 @@ static void schedule_burst(const Case &c, pbt::Ctx &ctx)
     ran[(size_t)i] = 0;
   auto token = std::make_shared<int>(42);  // every closure holds a copy: released when the closure is destroyed
   std::atomic<int> bad{0};
+  // mode 1: the function is handed over as a NAMED object (lvalue) that the caller overwrites right after schedule()
+  //         returned - what runs is the function as it was when it was handed over;
+  // mode 2: the tasking system is re-initialised with another thread count while the burst is still queued - the tasks
+  //         already handed over still run exactly once
+  const int mode = g_skipInit ? 0 : ((c.action % 3) + 3) % 3;
+  struct Job
+  {
+    std::vector<int> heap;
+    std::shared_ptr<int> token;
+    std::atomic<int> *ranp, *badp;
+    int i, us;
+    void operator()() const
+    {
+      if (i < 0 || heap.empty() || heap[0] != i || !token || *token != 42) {
+        (*badp)++;
+        return;
+      }
+      burn(us);
+      ranp[i].fetch_add(1);
+    }
+  };
   for (int i = 0; i < n; ++i) {
     std::vector<int> heap((size_t)(i % 7 + 1), i);  // closure-owned heap state
     auto *ranp = ran.get();
     auto *badp = &bad;
     int us = c.taskUs;
+    if (mode == 1) {
+      Job job{heap, token, ranp, badp, i, us};
+      schedule(job);
+      job.i = -1;  // the caller's object is re-used / goes out of scope: the scheduled function is a copy
+      job.heap.clear();
+      job.token.reset();
+      continue;
+    }
     schedule([heap, token, ranp, badp, i, us]() {
       if (heap.empty() || heap[0] != i || *token != 42)
         (*badp)++;
       burn(us);
       ranp[i].fetch_add(1);
     });
+  }
+  if (mode == 1)
+    ctx.label("schedule(lvalue functor), overwritten afterwards");
+  if (mode == 2) {
+    g_threads = g_threads == 2 ? 3 : 2;
+    initTaskingSystem(g_threads);
+    ctx.label("re-initialised while the burst was queued");
   }
   burn(c.callerUs);
   bool all = waitUntil(
